@@ -118,12 +118,32 @@ class IP6:
         body = buf[40:]
         if self.plen:
             body = body[:self.plen]
-        self.p = self.nxt
+        # extension headers as dpkt.ip6 walks them: hop-by-hop (0), routing (43), destination options (60): (len + 1) * 8 bytes;
+        # fragment (44): 8 bytes; authentication (51): (len + 2) * 4 bytes; .p is the protocol after the last of them
+        p = self.nxt
+        for _ in range(8):
+            if p == 0 or p == 43 or p == 60:
+                if len(body) < 8:
+                    raise NeedData("short extension header")
+                ln = (int(body[1]) + 1) * 8
+            elif p == 44:
+                if len(body) < 8:
+                    raise NeedData("short fragment header")
+                ln = 8
+            elif p == 51:
+                if len(body) < 8:
+                    raise NeedData("short authentication header")
+                ln = (int(body[1]) + 2) * 4
+            else:
+                break
+            p = body[0]
+            body = body[ln:]
+        self.p = p
         self.data = body
         try:
-            if self.nxt == 6:
+            if self.p == 6:
                 self.data = self.tcp = TCP(body)
-            elif self.nxt == 17:
+            elif self.p == 17:
                 self.data = self.udp = UDP(body)
         except (NeedData, UnpackError):
             self.data = body
